@@ -501,6 +501,38 @@ class RNG:
                         ctx.passed("RNG-5", fi, cs.node, inst, "seed expression is free of hash()/id()")
 
 
+def rule_rng7(r: "RNG"):
+    """RNG-7: the private generator of a planner/learner is created per run (reachable from plan_on / train_on),
+    not once per object: otherwise a second run on the same object continues the stream and differs from a fresh one."""
+    ctx, P, G = r.ctx, r.P, r.G
+    done = set()
+    for cname, m in ENTRIES:
+        if m not in ("plan_on", "train_on"):
+            continue
+        ci = P.cls(cname)
+        if ci in done:
+            continue
+        done.add(ci)
+        entry = P.method(cname, m)
+        reach = G.reachable([entry])
+        ctor_sites = []
+        for c in ci.mro:
+            if not isinstance(c, ClassInfo):
+                continue
+            for f in c.methods.values():
+                for cs in G.sites(f):
+                    if cs.external in PRIVATE_CTORS or cs.external in RESEEDS:
+                        ctor_sites.append((f, cs))
+        if not ctor_sites:
+            ctx.unknown("RNG-7", entry, entry.node, f"{cname}: generator created per run", "no private generator construction found in the class")
+            continue
+        for f, cs in ctor_sites:
+            inst = f"{cname}: {cs.external}(...) created per {m} run"
+            ctx.check(f in reach, "RNG-7", f, cs.node, inst, f"constructed in {f.name}, reachable from {m}",
+                      f"the generator is constructed in {f.name}, which {m} does not reach: it is created once per object, so a second "
+                      f"{m} on the same object continues the random stream and differs from a fresh, equally seeded run")
+
+
 def run(ctx: Ctx):
     r = RNG(ctx)
     ctx.extra["entry_points"] = [f.qualname for f in r.entries]
@@ -511,6 +543,8 @@ def run(ctx: Ctx):
     r.rule_rng2()
     r.rule_rng3()
     r.rule_rng5()
+    rule_rng7(r)
+    ctx.require("RNG-7", 8)
     setorder.rule_rng6(ctx, r.G, r.fns, "RNG-6")
     ctx.require("RNG-1", 7)
     ctx.require("RNG-2", 25)
